@@ -109,3 +109,28 @@ is_design = Fn(U + 'is_design', ret='r', level='L1', valid='(m@.len() as int) % 
                       ('is_design = false;', 'post', ' proof { bad_ = i as int; }')])
 UNITS.append(Unit('C15_design', 'C15', [design, is_design], use=core.core_stubs() + [c15.is_matrix, s1.c2r], types=core.TYPES, type_spec=core.TYPE_SPEC, spec=SPEC + DESIGN_SPEC, preludes=PRE, broadcast=BC, level='L1',
                   notes='design: a column of ones in front of the (column-major) data, returned row-major; is_design: first column equal to one within machine epsilon'))
+
+# ---------------------------------------------------------------- vertical concatenation / repetition / row extraction
+REP_SPEC = r'''
+pub assume_specification<T: Copy> [<[T]>::repeat] (s: &[T], n: usize) -> (r: Vec<T>)
+    ensures r@.len() == s@.len() * n, forall|k: int| 0 <= k < r@.len() ==> #[trigger] r@[k] == s@[k % (s@.len() as int)];
+'''
+vext = Fn(VEC + '{impl Extend<f64> for Vector}::extend', level='A', inherent=True, name_as='extend', sig_sub=[(r'extend<T: IntoIterator<Item = f64>>\(&mut self, iter: T\)', 'extend(&mut self, iter: Vector)')],
+          ensures=['A.vector_extend:: final(self).v@ == old(self).v@ + iter.v@'])
+vcat = Fn(IM + 'vcat', ret='r', level='L0', valid='self.ncols == other.ncols', panics={1: 'REJECT'},
+          requires=['C15.vcat.wf:: wf(*self) && wf(other)', 'C15.vcat.range:: (self.nrows + other.nrows) * self.ncols <= i32max() && self.nrows + other.nrows <= i32max()'],
+          ensures=['C15.vcat.valid:: self.ncols == other.ncols', 'C15.vcat.shape:: r.nrows == self.nrows + other.nrows && r.ncols == self.ncols && wf(r)',
+                   'C15.vcat.top:: forall|i: int, j: int| 0 <= i < self.nrows && 0 <= j < self.ncols ==> #[trigger] at2(r.data.v@, self.ncols as int, i, j) == at2(self.data.v@, self.ncols as int, i, j)',
+                   'C15.vcat.bottom:: forall|i: int, j: int| 0 <= i < other.nrows && 0 <= j < self.ncols ==> #[trigger] at2(r.data.v@, self.ncols as int, self.nrows + i, j) == at2(other.data.v@, self.ncols as int, i, j)'],
+          hints=[('Matrix::new(new_vec,', 'before',
+                  'proof { assert((self.nrows + other.nrows) * self.ncols == self.nrows * self.ncols + other.nrows * self.ncols) by(nonlinear_arith); '
+                  'assert forall|i: int, j: int| 0 <= i < self.nrows && 0 <= j < self.ncols implies #[trigger] at2(new_vec.v@, self.ncols as int, i, j) == at2(self.data.v@, self.ncols as int, i, j) by { lemma_idx(i, j, self.nrows as int, self.ncols as int); } '
+                  'assert forall|i: int, j: int| 0 <= i < other.nrows && 0 <= j < self.ncols implies #[trigger] at2(new_vec.v@, self.ncols as int, self.nrows + i, j) == at2(other.data.v@, self.ncols as int, i, j) by '
+                  '{ lemma_idx(i, j, other.nrows as int, self.ncols as int); assert((self.nrows + i) * self.ncols + j == self.nrows * self.ncols + (i * self.ncols + j)) by(nonlinear_arith); } }')])
+vrepeat = Fn(IM + 'vrepeat', ret='r', level='L0',
+             requires=['C15.vrepeat.wf:: wf(*self) && self.nrows > 0 && self.ncols > 0', 'C15.vrepeat.range:: self.nrows * n * self.ncols <= i32max() && self.nrows * n <= i32max()'],
+             ensures=['C15.vrepeat.shape:: r.nrows == self.nrows * n && r.ncols == self.ncols && wf(r)',
+                      'C15.vrepeat.copies:: forall|k: int| 0 <= k < r.data.v@.len() ==> #[trigger] r.data.v@[k] == self.data.v@[k % (self.data.v@.len() as int)]'],
+             hints=[('let total_rows = self.nrows * n;', 'after', 'proof { assert(self.nrows * self.ncols * n == self.nrows * n * self.ncols) by(nonlinear_arith); }')])
+UNITS.append(Unit('C15_stack', 'C15', [vcat, vrepeat], use=core.core_stubs() + [vext], types=core.TYPES, type_spec=core.TYPE_SPEC, spec=SPEC + REP_SPEC, preludes=PRE, broadcast=BC, level='L0',
+                  notes='vcat: the rows of other below the rows of self, column mismatch rejected; vrepeat: n stacked copies (flat data repeated). Vector::extend (generic iterator) and slice::repeat are assumed contracts'))
